@@ -101,12 +101,16 @@ def gen_site_problem(rng):
 
 def run(ctx: Ctx):
     ctx.rule = ("the service on random sites of 1-4 process zones (flat labels, nested labels, explicit zone trees) x utility ladders with "
-                "and without intermediate levels: total-process record = sum of the zones' records (values and per-utility duties); "
+                "and without intermediate levels, plus double-pinch zones with a pocket between the pinches: total-process record = sum of the zones' records (values and per-utility duties); "
                 "total-site Qh, Qc <= zone sums and >= the site's own direct-integration targets; Qr formula. The site utility cascade "
                 "model is tied under C02. Non-trivial: a site where indirect recovery through the utility system is positive.")
     corpus = load_corpus("C09")
     probs = [c["problem"] for c in corpus if c.get("kind") == "service"]
     probs += [gen_site_problem(ctx.rng) for _ in range(ctx.n(300, 6000))]
+    # fixed share: a zone with two separate pinches and a recovery pocket between them (rows strictly between the pinch
+    # rows), beside an ordinary zone - whatever leaks out of that pocket into the zone's utility duties raises the
+    # total-site targets above the zone sums
+    probs += [c03.gen_double_pinch(ctx.rng) for _ in range(ctx.n(40, 800))]
     n0 = 0
     for pr in probs:
         before = ctx.dist["indirect_recovery>0"]
